@@ -40,7 +40,7 @@ OffFlag == /\ sop = "off" /\ spc = "s1" /\ run' = FALSE /\ spc' = "s2"
 OffLock == /\ sop = "off" /\ spc = "s2" /\ lock = "none" /\ lock' = "sock" /\ spc' = "s3"
            /\ UNCHANGED <<run, q, sop, smsg, tpc, tfn, emit, drop, accepted, fate>>
 OffClear == /\ sop = "off" /\ spc = "s3" /\ q' = <<>> /\ lock' = "none" /\ spc' = "done"
-            /\ fate' = fate \o [k \in 1..Len(q) |-> [id |-> q[k].id, kind |-> "cleared", at |-> -1]]
+            /\ fate' = fate \o [k \in 1..Len(q) |-> [id |-> q[k].id, fn |-> q[k].fn, kind |-> "cleared", at |-> -1]]
             /\ UNCHANGED <<run, sop, smsg, tpc, tfn, emit, drop, accepted>>
 OnFlag == /\ sop = "on" /\ spc = "s1" /\ run' = TRUE /\ spc' = "done"
           /\ UNCHANGED <<q, lock, sop, smsg, tpc, tfn, emit, drop, accepted, fate>>
@@ -60,10 +60,10 @@ TickPartition ==
   /\ lock' = "none" /\ tpc' = "t4"
   /\ UNCHANGED <<run, sop, spc, smsg, tfn, accepted, fate>>
 TickSend == /\ tpc = "t4" /\ emit # <<>>
-            /\ fate' = Append(fate, [id |-> emit[1].id, kind |-> "sent", at |-> tfn]) /\ emit' = Tail(emit)
+            /\ fate' = Append(fate, [id |-> emit[1].id, fn |-> emit[1].fn, kind |-> "sent", at |-> tfn]) /\ emit' = Tail(emit)
             /\ UNCHANGED <<run, q, lock, sop, spc, smsg, tpc, tfn, drop, accepted>>
 TickLog  == /\ tpc = "t4" /\ emit = <<>> /\ drop # <<>>
-            /\ fate' = Append(fate, [id |-> drop[1].id, kind |-> "stale", at |-> tfn]) /\ drop' = Tail(drop)
+            /\ fate' = Append(fate, [id |-> drop[1].id, fn |-> drop[1].fn, kind |-> "stale", at |-> tfn]) /\ drop' = Tail(drop)
             /\ UNCHANGED <<run, q, lock, sop, spc, smsg, tpc, tfn, emit, accepted>>
 TickEnd  == /\ tpc = "t4" /\ emit = <<>> /\ drop = <<>> /\ tpc' = "done"
             /\ UNCHANGED <<run, q, lock, sop, spc, smsg, tfn, emit, drop, accepted, fate>>
@@ -78,5 +78,7 @@ LocalIds == {emit[k].id : k \in 1..Len(emit)} \cup {drop[k].id : k \in 1..Len(dr
 NoSilentLoss == accepted = QIds \cup LocalIds \cup FateIds
 ExactlyOnce == /\ \A i, j \in 1..Len(fate) : fate[i].id = fate[j].id => i = j
                /\ QIds \cap FateIds = {} /\ LocalIds \cap FateIds = {} /\ QIds \cap LocalIds = {}
+SentInOwnFrame == \A k \in 1..Len(fate) : fate[k].kind = "sent" => fate[k].at = fate[k].fn
+StaleOnlyIfPassed == \A k \in 1..Len(fate) : fate[k].kind = "stale" => (fate[k].fn # fate[k].at /\ Dist(fate[k].fn, fate[k].at) >= Hyper \div 2)
 MutexOk == lock \in {"none", "sock", "clk"}
 =============================================================================
